@@ -6,6 +6,7 @@ package concfs
 
 import (
 	"fmt"
+	"io/fs"
 	"os"
 	"sort"
 	"strings"
@@ -283,6 +284,11 @@ func NewInst(p Prog) (*Inst, error) {
 
 		// a symbolic link (MemFS only): /d/s -> x
 		if err := m.Symlink("x", "/d/s"); err != nil {
+			return nil, err
+		}
+
+		// /tmp is sticky, as it is on a real system: who owns an entry matters to Remove and Rename there
+		if err := m.Chmod("/tmp", 0o777|fs.ModeSticky); err != nil {
 			return nil, err
 		}
 
@@ -716,6 +722,8 @@ func Templates(fs string, core, removeAll bool) []Tmpl {
 		// the two calls share no directory lock, only the lock of the file orders their counter updates
 		Tmpl{{Op: "Link", A: "/d/x", B: "/f/l"}, {Op: "Link", A: "/f/l", B: "/f/m"}},
 		one(fsx.Call{Op: "Link", A: "/d/h", B: "/d/y"}),
+		// truncation asked with a read-only access mode: still a write to the file
+		one(fsx.Call{Op: "OpenFile", A: "/d/x", Flag: os.O_RDONLY | os.O_TRUNC}),
 		// exclusive creation without an access mode (the lock-file idiom): still a creation
 		one(fsx.Call{Op: "OpenFile", A: "/d/y", Flag: os.O_CREATE | os.O_EXCL, Perm: 0o644}),
 		// the same missing directory made by two threads, each putting its own file into it:
